@@ -26,11 +26,13 @@ Record sys := mkSys {
   used : list gen;
   pends : list pend;
   recl : list path;
-  gcs : option (list path * gphase)
+  gcs : option (list path * gphase);
+  gmark : list key      (* keys that had a commit point in the collector's mark snapshot *)
 }.
 
-(* which of the two sweep guards are effective *)
-Record cfg := mkCfg { cf_inflight : bool; cf_recheck : bool }.
+(* which of the two sweep guards are effective; [cf_orphan_skip]: the re-check is skipped for candidates
+   whose key had no commit point in the mark snapshot ("orphans") *)
+Record cfg := mkCfg { cf_inflight : bool; cf_recheck : bool; cf_orphan_skip : bool }.
 
 Inductive action :=
 | AStart (k : key) (g : gen) (v : val) (tok : N)   (* new_generation + track_in_flight *)
@@ -40,6 +42,7 @@ Inductive action :=
 | ADrop (k : key) (g : gen)                        (* guard released after the commit *)
 | AReclaim (p : path)                              (* best_effort_delete *)
 | ADelete (k : key)                                (* delete_object: fetch + delete the commit point *)
+| AGcMark                                          (* mark phase: snapshot of the keys with a commit point *)
 | AGcList (cands : list path)
 | AGcCheck | AGcRecheck | AGcDelete
 | ACrash.
@@ -76,7 +79,7 @@ Definition exec (cf : cfg) (s : sys) (a : action) : option sys :=
   | AStart k g v tok =>
       if in_dec string_dec g (used s) then None
       else Some (mkSys (st s) ((k, g) :: infl s) (g :: used s)
-                       (mkPend k g v tok false :: pends s) (recl s) (gcs s))
+                       (mkPend k g v tok false :: pends s) (recl s) (gcs s) (gmark s))
   | AWrite k g src =>
       match find_pend k g (pends s) with
       | Some q =>
@@ -84,7 +87,7 @@ Definition exec (cf : cfg) (s : sys) (a : action) : option sys :=
           match (match src with None => Some (p_val q) | Some sk => cur_payload (st s) sk end) with
           | Some v =>
               Some (mkSys (put (st s) (PGen k g) (OPay v)) (infl s) (used s)
-                          (mkPend k g v (p_tok q) true :: remove_pend k g (pends s)) (recl s) (gcs s))
+                          (mkPend k g v (p_tok q) true :: remove_pend k g (pends s)) (recl s) (gcs s) (gmark s))
           | None => None
           end
       | None => None
@@ -98,64 +101,65 @@ Definition exec (cf : cfg) (s : sys) (a : action) : option sys :=
                        | None => []
                        end in
             Some (mkSys (put (st s) (PMeta k) (OMeta (mkMeta (Some g) (p_val q) (p_tok q))))
-                        (infl s) (used s) (remove_pend k g (pends s)) (old ++ recl s) (gcs s))
+                        (infl s) (used s) (remove_pend k g (pends s)) (old ++ recl s) (gcs s) (gmark s))
           else None
       | None => None
       end
   | AAbort k g =>
       match find_pend k g (pends s) with
       | Some _ => Some (mkSys (st s) (remove kg_eq_dec (k, g) (infl s)) (used s)
-                              (remove_pend k g (pends s)) (recl s) (gcs s))
+                              (remove_pend k g (pends s)) (recl s) (gcs s) (gmark s))
       | None => None
       end
   | ADrop k g =>
       match find_pend k g (pends s) with
       | Some _ => None
-      | None => Some (mkSys (st s) (remove kg_eq_dec (k, g) (infl s)) (used s) (pends s) (recl s) (gcs s))
+      | None => Some (mkSys (st s) (remove kg_eq_dec (k, g) (infl s)) (used s) (pends s) (recl s) (gcs s) (gmark s))
       end
   | AReclaim p =>
       if in_dec path_eq_dec p (recl s)
       then Some (mkSys (del path_eq_dec (st s) p) (infl s) (used s) (pends s)
-                       (remove path_eq_dec p (recl s)) (gcs s))
+                       (remove path_eq_dec p (recl s)) (gcs s) (gmark s))
       else None
   | ADelete k =>
       match cur_meta (st s) k with
       | Some m => Some (mkSys (del path_eq_dec (st s) (PMeta k)) (infl s) (used s) (pends s)
-                              (ppath k (m_gen m) :: recl s) (gcs s))
+                              (ppath k (m_gen m) :: recl s) (gcs s) (gmark s))
       | None => None
       end
+  | AGcMark => Some (mkSys (st s) (infl s) (used s) (pends s) (recl s) (gcs s) (dedup (meta_keys (st s))))
   | AGcList cands =>
       match gcs s with
       | Some _ => None
       | None =>
           if forallb (fun p => is_payload p && match bget (st s) p with Some _ => true | None => false end) cands
-          then Some (mkSys (st s) (infl s) (used s) (pends s) (recl s) (Some (cands, GA)))
+          then Some (mkSys (st s) (infl s) (used s) (pends s) (recl s) (Some (cands, GA)) (gmark s))
           else None
       end
   | AGcCheck =>
       match gcs s with
-      | Some ([], _) => Some (mkSys (st s) (infl s) (used s) (pends s) (recl s) None)
+      | Some ([], _) => Some (mkSys (st s) (infl s) (used s) (pends s) (recl s) None (gmark s))
       | Some (p :: r, GA) =>
           if cf_inflight cf && inflightb s p
-          then Some (mkSys (st s) (infl s) (used s) (pends s) (recl s) (Some (r, GA)))
-          else Some (mkSys (st s) (infl s) (used s) (pends s) (recl s) (Some (p :: r, GB)))
+          then Some (mkSys (st s) (infl s) (used s) (pends s) (recl s) (Some (r, GA)) (gmark s))
+          else Some (mkSys (st s) (infl s) (used s) (pends s) (recl s) (Some (p :: r, GB)) (gmark s))
       | _ => None
       end
   | AGcRecheck =>
       match gcs s with
       | Some (p :: r, GB) =>
-          if cf_recheck cf && referencedb (st s) p
-          then Some (mkSys (st s) (infl s) (used s) (pends s) (recl s) (Some (r, GA)))
-          else Some (mkSys (st s) (infl s) (used s) (pends s) (recl s) (Some (p :: r, GC)))
+          if cf_recheck cf && (negb (cf_orphan_skip cf) || keyb_in (pkey p) (gmark s)) && referencedb (st s) p
+          then Some (mkSys (st s) (infl s) (used s) (pends s) (recl s) (Some (r, GA)) (gmark s))
+          else Some (mkSys (st s) (infl s) (used s) (pends s) (recl s) (Some (p :: r, GC)) (gmark s))
       | _ => None
       end
   | AGcDelete =>
       match gcs s with
       | Some (p :: r, GC) =>
-          Some (mkSys (del path_eq_dec (st s) p) (infl s) (used s) (pends s) (recl s) (Some (r, GA)))
+          Some (mkSys (del path_eq_dec (st s) p) (infl s) (used s) (pends s) (recl s) (Some (r, GA)) (gmark s))
       | _ => None
       end
-  | ACrash => Some (mkSys (st s) [] (used s) [] [] None)
+  | ACrash => Some (mkSys (st s) [] (used s) [] [] None [])
   end.
 
 Fixpoint run (cf : cfg) (s : sys) (l : list action) : option sys :=
@@ -172,9 +176,9 @@ Fixpoint before (a b : gc_ev) (l : list gc_ev) : bool :=
               else if gc_ev_eqb x b then false else before a b r
   end.
 
-Definition cfg_of (sweep : list gc_ev) : cfg :=
+Definition cfg_of (sweep : list gc_ev) (recheck_unconditional : bool) : cfg :=
   mkCfg (before GcCheckInFlight GcRecheck sweep && before GcCheckInFlight GcDelete sweep)
-        (before GcRecheck GcDelete sweep).
+        (before GcRecheck GcDelete sweep) (negb recheck_unconditional).
 
 (* ------------------------------------------------------------------ invariant *)
 Definition pend_path (q : pend) : path := PGen (p_key q) (p_gen q).
@@ -302,11 +306,11 @@ Lemma pend_path_neq k g q : ~ (p_key q = k /\ p_gen q = g) -> pend_path q <> PGe
 Proof. intros H E. unfold pend_path in E. inversion E. tauto. Qed.
 
 (* ------------------------------------------------------------------ preservation *)
-Definition full : cfg := mkCfg true true.
+Definition full : cfg := mkCfg true true false.
 
 #[local] Hint Resolve in_cons in_eq : core.
 
-Ltac inv_split := constructor; cbn [st infl used pends recl gcs].
+Ltac inv_split := constructor; cbn [st infl used pends recl gcs gmark].
 
 Ltac split5 := split; [|split; [|split; [|split]]].
 Ltac split3 := split; [|split].
@@ -519,6 +523,8 @@ Proof.
     + intros cands ph Hg. destruct (C cands ph Hg) as (C1 & C2 & C3). split; [exact C1|]. split; [exact C2|].
       intros -> p r ->. specialize (C3 eq_refl p r eq_refl). destruct (C1 p (or_introl eq_refl)) as [A _].
       apply unref_del_meta; auto.
+  - (* AGcMark *)
+    inversion E; subst s'; clear E. inv_split; [exact G | exact U | exact P | exact R | exact C].
   - (* AGcList *)
     destruct (gcs s) eqn:Eg; [discriminate|].
     destruct (forallb _ cands) eqn:Ef; [|discriminate]. inversion E; subst s'; clear E.
@@ -582,7 +588,7 @@ Qed.
 Lemma inv_init (b : bstore) (u : list gen) :
   (forall k, rd_good (kread k b) = true) ->
   (forall k g, bget b (PGen k g) <> None -> In g u) ->
-  Inv (mkSys b [] u [] [] None).
+  Inv (mkSys b [] u [] [] None []).
 Proof. intros G U. constructor; simpl; auto; try (intros; tauto); try (intros; discriminate). Qed.
 
 (* what a collector delete does to readers: nothing *)
